@@ -360,15 +360,29 @@ func checkBracketSlashesNoticed(p *Prog, r *Result, rule string) int {
 			if !ok {
 				return false
 			}
-			id, ok := ast.Unparen(be.X).(*ast.Ident)
+			x, y, op := be.X, be.Y, be.Op
+			if _, isConst := runeConst(x); isConst {
+				x, y = y, x
+				switch op {
+				case token.LSS:
+					op = token.GTR
+				case token.LEQ:
+					op = token.GEQ
+				case token.GTR:
+					op = token.LSS
+				case token.GEQ:
+					op = token.LEQ
+				}
+			}
+			id, ok := ast.Unparen(x).(*ast.Ident)
 			if !ok || info.ObjectOf(id) != obj {
 				return false
 			}
-			k, ok := runeConst(be.Y)
+			k, ok := runeConst(y)
 			if !ok {
 				return false
 			}
-			switch be.Op {
+			switch op {
 			case token.EQL:
 				return e.Pol && k != '/'
 			case token.GTR, token.GEQ:
@@ -382,11 +396,15 @@ func checkBracketSlashesNoticed(p *Prog, r *Result, rule string) int {
 			if !ok {
 				return false
 			}
-			id, ok := ast.Unparen(be.X).(*ast.Ident)
+			x, y := be.X, be.Y
+			if _, isConst := runeConst(x); isConst {
+				x, y = y, x // '/' == c
+			}
+			id, ok := ast.Unparen(x).(*ast.Ident)
 			if !ok || info.ObjectOf(id) != obj {
 				return false
 			}
-			k, ok := runeConst(be.Y)
+			k, ok := runeConst(y)
 			return ok && k == '/'
 		}
 		skipNotFilenames := func(e *FEdge) bool {
